@@ -28,8 +28,8 @@ var (
 
 // GoValueOpts tunes GoValue.
 type GoValueOpts struct {
-	NilPct int                         // chance (percent) that a pointer / slice / map is nil
-	MaxLen int                         // maximum slice / map length (default 3)
+	NilPct int                          // chance (percent) that a pointer / slice / map is nil
+	MaxLen int                          // maximum slice / map length (default 3)
 	Dyn    func(r *core.Rand) cty.Value // generator for cty.Value leaves (default DynLeaf)
 }
 
